@@ -49,6 +49,12 @@ static void check_domain(const char *sub, const unsigned char *d, size_t n) {
     MC_ADD(C_EVAL, 1);
     if ((rc == 0) != (exp == R_ACC))
         mc_violation(sub, why_str(whyset, rc, exp), "", "ctx=is_ascii_domain", d, n, "is_ascii_domain: reference %s, library rc=%d", exp == R_ACC ? "ACCEPT" : "REJECT", rc);
+    if (n == 0) {   /* the empty domain handed to the IDN validator directly: rejected with a negative code, both policies */
+        for (int t = 0; t < 2; t++) {
+            int ir0 = 0, rc0 = is_utf8_domain(&ir0, (const char *)buf, (const char *)buf, t); MC_ADD(C_EVAL, 1);
+            if (rc0 >= 0) mc_violation(sub, "utf8dom:accepts-empty", "", "ctx=is_utf8_domain", d, n, "is_utf8_domain(empty, tld=%d) returned %d", t, rc0);
+        }
+    }
     if (n == 0 || d[0] == '[') return;
     int hasat = 0; for (size_t i = 0; i < n; i++) if (d[i] == '@') hasat = 1;
     if (hasat) return;
@@ -170,6 +176,22 @@ static void l3_total(long shard, void *arg) {
     }
 }
 
+/* label COUNT: n equal labels of k characters, n = 1..140 (k = 1: up to and past the 127 labels that fit in 253 characters),
+ * k = 1..63 while the name stays under 300 characters; with/without root dot; last label optionally one character longer */
+static void l3_count(long shard, void *arg) {
+    (void)arg; int k = (int)shard + 1;
+    unsigned char t[700];
+    for (int n = 1; n <= 140; n++) {
+        if (n * (k + 1) > 300) break;
+        for (int longer = 0; longer < 2; longer++) for (int root = 0; root < 2; root++) {
+            size_t l = 0;
+            for (int i = 0; i < n; i++) { if (i) t[l++] = '.'; l += put_label(t + l, k + (longer && i == n - 1), 0); }
+            if (root) t[l++] = '.';
+            check_domain("L3count", t, l); MC_ADD(C_L3, 1);
+        }
+    }
+}
+
 /* mode 6531: long U-label domains (UTF-8 byte length crosses 255 while the A-label form is within / beyond 253) */
 static void l3_ulabel(long shard, void *arg) {
     (void)arg; int nl = (int)shard + 1;
@@ -210,6 +232,7 @@ int main(int argc, char **argv) {
     mc_parallel("L2: 25 bases x every position x 255 bytes (+ adjacent pairs)", NBASES, l2_shard, NULL);
     mc_parallel("L3: label length 0..70 x position x 1..5 labels (+hyphen positions)", 5L * 5 * 71, l3_labels, NULL);
     mc_parallel("L3: total length 235..262 x last label 1..63 x root dot", 28, l3_total, NULL);
+    mc_parallel("L3: label count: n = 1..140 equal labels of k = 1..63 characters (127 x 1 = 253 included), root dot, last label +1", 63, l3_count, NULL);
     mc_parallel("L3: U-label domains of 1..7 labels x 8..56 letters (2- and 3-byte) around the 253/255 limits", 7, l3_ulabel, NULL);
     if (corpus_load()) return 2;
     { static const int PH[] = { CP_LONGIDN, CP_ALTDOT, CP_LABELLEN };
